@@ -28,7 +28,7 @@ CLAIMS = {
  "C04": ("flag-sensitive must-reply typestate over SSA CFGs + who-may-write/publish census",
          "Path-universal structural obligations: on every CFG path of request processing (handlers as havoc: reply 0/1 times, return or panic) "
          "library code replies exactly once; reply funnel guarded by the replied flag; recover closure replies iff not replied; every response "
-         "method that may reply must reply (private helpers analysed in place, also across a boolean helper result); requests are not parked on an orphaned work item after a restart; the service work queue is only tail-appended and head-dropped (no bounded copy that discards queued requests). Level 'other': necessary (and jointly close to sufficient) conditions of the behavioural statement, "
+         "method that may reply must reply (private helpers analysed in place, also across a boolean helper result); requests are not parked on an orphaned work item after a restart; the service work queue is only tail-appended and head-dropped (no bounded copy that discards queued requests); the lookup entry, which runs on the listener goroutine outside any recover, relates every index / slice bound on the requested name to the name's length (no implicit panic for a short name). Level 'other': necessary (and jointly close to sufficient) conditions of the behavioural statement, "
          "decided statically for all handler programs rather than sampled.", "DESIGN.md section 4 C04"),
  "C08": ("event classification (apply/publish/listener/panic) + path-universal typestate and dominance over every event method + no-go-on-publish-path census",
          "Decides for every handler/listener program the order apply -> publish -> listeners, at most one publish per call, that a failing apply, an apply reporting no change, an empty change "
@@ -52,19 +52,19 @@ CLAIMS = {
          "Decides the structural part of client coherence: the representation the change handler diffs is built like the one get serves (a missing value becomes the default with and without a "
          "transformer - a genuine defect here was repaired, fix 9e8a6c6 -, stored values go through Transform on both paths), create / delete are selected on the nil edges of those "
          "representations with the resource id from IDToRID of the after (else before) value, and the model diff marks removed keys with the delete action on the not-present edge (a scan not conditioned on the new map's size) and reports "
-         "a key only when it is new or not Equal. The remove/add edit script of the collection diff (LCS index arithmetic) is NOT decided: no static argument in reach bounds it.", "DESIGN.md section 4 C10"),
+         "a key only when it is new or not Equal; the get handler replies while its read transaction is open, so an event published under a writer's transaction cannot overtake a response built from an older value. The remove/add edit script of the collection diff (LCS index arithmetic) is NOT decided: no static argument in reach bounds it.", "DESIGN.md section 4 C10"),
  "C11": ("lock-mode pairing census + sentinel reachability + callback-count typestate with argument value flow + closure-order dominance + receiver-kind cache-coherence rule",
          "Decides per shipped store the structural part of map-equivalence: Read/Write acquire and the txn's own Close releases the same mode on the txn id exactly once; duplicate / not-found "
          "sentinels are returned and the raw database sentinel is not; Create guards the empty id; exactly one change fan-out on success returns, after the success edge, with (id, value read in "
-         "the same transaction, new value), none on error returns; type check before the transaction, veto before the write inside it; a cached value in the txn is dead or refreshed by every "
+         "the same transaction, new value), none on error returns; type check before the transaction, veto before the write inside it; in badgerstore Update / Delete every database write follows a read of the key on all paths (the database itself accepts writes to missing keys); a cached value in the txn is dead or refreshed by every "
          "mutation. Linearizability of concurrent histories is not executed.", "DESIGN.md section 4 C11"),
  "C12": ("who-may-call census of badger transaction writes (value flow to the DB.Update closure parameter) + transaction-count typestate + dominance obligations inside Init's closure",
          "Decides necessary conditions of crash atomicity: all database writes happen on the transaction of one DB.Update closure, each mutation is exactly one transaction acknowledged only after "
-         "commit, Init reads the marker, seeds and writes the marker in one closure (marker read first, marker write last, found edge writes nothing, existing ids skipped), RebuildIndexes drops "
+         "commit, Init reads the marker, seeds and writes the marker in one closure (marker read first, marker write last, found edge writes nothing, existing ids skipped, only written seeds announced to the change listeners), RebuildIndexes drops "
          "the index prefixes before its single re-scan. Crash points, fsync and BadgerDB recovery are not explored.", "DESIGN.md section 4 C12"),
  "C13": ("symbolic linear layout check of hand-built keys + writer/reader constant agreement + funnel census + badger iterator API-usage rule",
          "Decides the structural part of index queries: key and prefix buffers are exactly filled for every input length and agree with the reader on ':' / separator / name length; nil keys are "
-         "never indexed and nil is not confused with an empty key; maintenance runs only in the FIFO task Flush awaits, on before-values that are the stored values (transaction cache dead or refreshed); a reverse-capable iterator is not sought with the bare prefix; limit 0 and "
+         "never indexed and nil is not confused with an empty key; maintenance runs only in the FIFO task Flush awaits, on before-values that are the stored values (transaction cache dead or refreshed); a key slice handed to a pending transaction write is not afterwards reused as a writable buffer; Init announces only the seeds it wrote (no phantom index entries); a reverse-capable iterator is not sought with the bare prefix; limit 0 and "
          "negative limit guards. The sorted/filtered/windowed result itself is arithmetic over data and not decided.", "DESIGN.md section 4 C13"),
  "C14": ("must-pass-through dominance for the query-change fan-out + guard analysis of the unchanged-key predicate with sibling agreement + reset-edge reachability in the query handler",
          "Decides that index maintenance and its notifications run only as tasks of the blocking FIFO queue (per-id order) on before-values that are the stored values, that subscribers are notified only after the index transaction committed and only when some key changed, that the unchanged-key predicate keeps nil and empty keys apart and is the "
@@ -88,7 +88,7 @@ CLAIMS = {
          "announced milliseconds and notifies every callback, and that the pre-response key matches the service's literal. Wall-clock behaviour is not decided.", "DESIGN.md section 4 C19"),
  "C15": ("must-reply typestate on query request handling + funnel / who-may-call census of the nil callback + value identity of the inbox subject + loop-capture rule + channel-close reachability for library goroutines",
          "Decides that every query request path replies exactly once whatever the callback does, that requests and expiry run in the resource's group, that the nil callback has exactly two mutually "
-         "exclusive sources and a stored subscription is always registered for expiry, that one fresh inbox value is subscribed and announced, that the expiry queue is rebuilt per run from the configured duration, that queued closures do not share a loop variable, and "
+         "exclusive sources and a stored subscription is always registered for expiry, that one fresh inbox value is subscribed and announced, that the callback is reached only after the decoded query was tested non-empty (an empty payload included), that the expiry queue is rebuilt per run from the configured duration, that queued closures do not share a loop variable, and "
          "that every library goroutine ranging over a channel can terminate (query listener: known finding). Timing of late requests versus the drain is not decided.", "DESIGN.md section 4 C15"),
  "C16": ("lockset discipline (lock-state dataflow x field access census) on the shared structures with named exemptions + logger/mock-store lock rules + shared-loop-variable rule",
          "A discipline check, not a race proof: every Service/work field written outside configuration and initialisation is accessed only under the queue mutex or only atomically (two known "
